@@ -3,3 +3,5 @@ pub mod g_exec;
 pub mod g_exec2;
 pub mod g_types;
 pub mod t;
+pub mod s;
+pub mod o;
